@@ -187,10 +187,45 @@ def attach_function(c, chk):
 def printer_emits(c, chk):
     fn = c.need('cfg_opt_print_pff_indent')
     hit = None
+    opener = None
     for call in fn.calls('fprintf'):
         s = c.string_arg(call, 1)
         if s and '/*' in s and '%s' in s and '*/' in s:
             hit = call
+        elif s and '/*' in s:
+            opener = call
+    if hit is None and opener is not None:
+        # written piecewise: the stored text must go out unchanged - nothing else may be written
+        # between the opener and the closer except the characters of opt->comment
+        ex = sym.Explorer(c.modules, max_visits=3, mod_sets=c.mod_sets, max_paths=50000)
+        altered = None
+        seen_any = False
+        for p in ex.explore(fn):
+            if p.end != 'ret':
+                continue
+            ev = [e for e in p.events if e.kind == 'call' and e.name in ('fprintf', 'fputc', 'fputs', 'putc', 'cfg_indent', 'fwrite')]
+            idx = [i for i, e in enumerate(ev) if e.ins is opener]
+            if not idx:
+                continue
+            seen_any = True
+            for e in ev[idx[0] + 1:]:
+                txt = e.args[1][1] if e.name == 'fprintf' and len(e.args) > 1 and e.args[1][0] == 'str' else None
+                if txt is not None and '*/' in txt:
+                    break
+                from_comment = any(sym.mentions(a, lambda v: v[0] == 'fld' and v[3] == 'comment') for a in e.args)
+                if not from_comment:
+                    altered = e
+                    break
+            if altered is not None:
+                break
+        if not seen_any:
+            chk.fail('R15.4', 'printer-no-annotation', c.where(fn), 'the per-option printer never writes the annotation')
+        elif altered is not None:
+            chk.fail('R15.4', 'printer-alters-annotation', c.where(altered.ins),
+                     'while writing the annotation the printer inserts other output (%s) into the comment text: the annotation does not read back as it was' % altered.name)
+        else:
+            chk.ok('R15.4', 'printer', 'annotation written piecewise between "/*" and "*/", only bytes of opt->comment in between')
+        return
     if hit is None:
         chk.fail('R15.4', 'printer-no-annotation', c.where(fn), 'the per-option printer never writes the annotation')
         return
